@@ -2554,6 +2554,12 @@ func (r *RIB) Flush(networkInstances []string) error {
 		}
 
 		for _, id := range backupNHGs {
+			// A backup NHG can be shared by several NHGs, and is not required
+			// to be installed, so it may already have been removed or never
+			// have existed. Neither case stops the RIB from being emptied.
+			if _, ok := niR.r.Afts.NextHopGroup[id]; !ok {
+				continue
+			}
 			delNHG(id)
 		}
 
